@@ -183,7 +183,7 @@ func (x *Exec) judgeDefective(rq *reqInfo, defect string, before string, what st
 	switch defect {
 	case "nomi", "nomi-bare":
 		x.judgeChallenge(rq, 401, what+" without MESSAGE-INTEGRITY")
-	case "nonce-random", "nonce-alphabet", "nonce-mac-flip", "nonce-ts-flip", "nonce-old", "nonce-other-server", "nonce-alnum-len":
+	case "nonce-random", "nonce-alphabet", "nonce-mac-flip", "nonce-ts-flip", "nonce-old", "nonce-old-fresh-appended", "nonce-other-server", "nonce-alnum-len":
 		if x.w.cfg.NoAuth {
 			return
 		}
